@@ -20,7 +20,7 @@ TYPES = ["i8", "u8", "i16", "u16", "i32", "u32", "i64", "u64", "f", "d", "ld", "
 TSIZE = {"i8": 1, "u8": 1, "i16": 2, "u16": 2, "i32": 4, "u32": 4, "i64": 8, "u64": 8, "f": 4, "d": 8,
          "ld": 16, "p": 8}                 # the documented x86-64 sizes (python statement of the property)
 DATAK = ("data", "bss", "ref", "expr", "lref")
-ENGINES = ["interp", "gen", "lazy", "regen"]   # regen: generated and run, then prepared and run by the interpreter
+ENGINES = ["interp", "gen", "lazy", "regen", "bb"]   # regen: generated and run, then prepared and run by the interpreter
 rng = ck.rng
 
 # ------------------------------------------------------------------------------------------ cases
@@ -100,11 +100,12 @@ def gen_random(cid, engine, length, want_lref):
         # the label function may come before or after the lrefs that use it
         b.lfunc_planned = rng.below(length + 1)
     n_lab = 2 + rng.below(2)
+    n_base = rng.below(n_lab + 1)      # labels only a difference-form lref mentions, in unreachable code
     lf_line = None
     lref_todo = []
     for step in range(length + 1):
         if want_lref and step == b.lfunc_planned:
-            lf_line = b.add("lfunc", b.name("lf"), n_lab)
+            lf_line = b.add("lfunc", b.name("lf"), n_lab, n_base)
         if step == length:
             break
         r = rng.below(100)
@@ -132,10 +133,12 @@ def gen_random(cid, engine, length, want_lref):
         elif r < 77 and want_lref:
             lab = rng.below(n_lab)
             lab2 = "-"
-            if rng.chance(1, 3):
-                lab2 = rng.below(n_lab)
+            disp = rand_disp() % (1 << 20)
+            if rng.chance(2, 5):
+                lab2 = f"b{rng.below(n_base)}" if n_base and rng.chance(1, 2) else rng.below(n_lab)
                 two_label = True
-            lref_todo.append(b.add("lref", b.item_name(named), "LF", lab, lab2, rand_disp() % (1 << 20)))
+                disp = rng.choice([1, 3, 8, -5, 1000, disp or 7, -(disp or 9)])     # never 0
+            lref_todo.append(b.add("lref", b.item_name(named), "LF", lab, lab2, disp))
         elif r < 82:
             b.add("func", b.name("fn"))
         elif r < 85:
@@ -202,6 +205,8 @@ ALPHABET = {
     "E": lambda b: b.add("expr", b.name(), b.lines_of(("efunc",))[1]),
     "l": lambda b: b.add("lref", "-", b.lines_of(("lfunc",))[0], 1, "-", 2),
     "L": lambda b: b.add("lref", b.name(), b.lines_of(("lfunc",))[0], 0, "-", 0),
+    "d": lambda b: b.add("lref", "-", b.lines_of(("lfunc",))[0], 1, 0, 5),
+    "D": lambda b: b.add("lref", "-", b.lines_of(("lfunc",))[0], 1, "b0", -7),
     "x": lambda b: b.add("ref", "-", b.lines_of(("export",))[0], 5),
     "y": lambda b: b.add("ref", "-", b.lines_of(("forward",))[0], -3),
     "F": lambda b: b.add("func", b.name("fn")),
@@ -216,8 +221,8 @@ def gen_word(cid, engine, word):
     if any(s in word for s in "eE"):
         b.add("efunc", "ef16", "i16", 0x1234)
         b.add("efunc", "ef32", "u32", 0xdeadbeef)
-    if any(s in word for s in "lL"):
-        b.add("lfunc", "lf", 2)
+    if any(s in word for s in "lLdD"):
+        b.add("lfunc", "lf", 2, 1 if "D" in word else 0)
     if "x" in word:
         b.add("export", "xd")
     if "y" in word:
@@ -237,6 +242,9 @@ def gen_word(cid, engine, word):
     if mid >= len(word):
         for d in defs:
             b.add(*d)
+    if any(s in word for s in "dD"):       # probes: the harness needs the addresses of the ordinary labels
+        for j in range(2):
+            b.add("lref", f"pb{j}", b.lines_of(("lfunc",))[0], j, "-", 0)
     return b.c
 
 
@@ -693,7 +701,7 @@ def main():
     cases += corpus
     cases += directed_cases()
     thorough = ck.tier == "thorough"
-    wl = sorted(set(words("AawWqzbBrRxyeElLFP", 4 if thorough else 3)))
+    wl = sorted(set(words("AawWqzbBrRxyeElLdDFP", 4 if thorough else 3)))
     for k, w in enumerate(wl):
         cases.append(gen_word(f"w-{w}", ENGINES[(k + ck.seed) % len(ENGINES)], w))
     n_random = 60000 if thorough else 4000
@@ -739,7 +747,9 @@ def main():
 
         def still_fails(cand, kind=kind, nm=nm, exe=exe):
             ps, _ = evaluate([cand], [(nm, exe)])
-            return any(p[2] == kind for p in ps)
+            # removing a probe lref makes a difference-form lref unverifiable: that is not the same failure
+            return any(p[2] == kind and ("lref=unverified" not in str(p[3]) or "lref=unverified" in str(detail))
+                       for p in ps)
 
         small = shrink(c, still_fails)
         ps, mm = evaluate([small], [(nm, exe)])
@@ -766,7 +776,8 @@ def main():
     feat = {"zero_size_item": 0, "named_after_data": 0, "anon_after_other": 0, "ref_to_later(forward)": 0, "ref_via_forward_after_def": 0, "ref_via_export_before_def": 0,
             "ref_via_export_after_def": 0,
             "ref_to_import": 0, "ref_to_func": 0, "ref_negative_disp": 0, "expr": 0, "lref_one_label": 0,
-            "lref_two_labels": 0, "multi_item_section": 0, "two_module_cases": 0, "module_b_loaded_first": 0,
+            "lref_two_labels": 0, "lref_base_label_unreachable": 0, "lref_two_labels_nonzero_disp": 0,
+            "multi_item_section": 0, "two_module_cases": 0, "module_b_loaded_first": 0,
             "ref_to_export_of_other_module": 0, "ref_to_export_of_other_module_multi_item_section": 0, "section_size_padded": 0, "lref_defect_pattern": 0}
     for c in cases:
         ls = c["lines"]
@@ -830,14 +841,18 @@ def main():
                     feat["module_b_loaded_first"] += 1
             if l[0] == "lref":
                 feat["lref_two_labels" if l[4] != "-" else "lref_one_label"] += 1
+                if str(l[4]).startswith("b"):
+                    feat["lref_base_label_unreachable"] += 1
+                if l[4] != "-" and int(l[5]) != 0:
+                    feat["lref_two_labels_nonzero_disp"] += 1
             prev = l[0]
         sizes[min(len(ls) // 5 * 5, 50)] = sizes.get(min(len(ls) // 5 * 5, 50), 0) + 1
     ck.cov["evaluations"] = len(cases) * len(flavours)
     ck.cov["distinct_nontrivial"] = len(distinct)
     ck.cov["rule"] = ("cases = corpus + directed (every element type, zero sizes) + every word of length <=3 (quick) / "
-                      "<=4 (thorough) over an 18-symbol item alphabet (named/anonymous data of 3 sizes, bss incl. "
+                      "<=4 (thorough) over a 20-symbol item alphabet (named/anonymous data of 3 sizes, bss incl. "
                       "length 0, ref to item/import, ref through export/forward declared before the definition, expr, "
-                      "lref, func, proto) + directed two-module grid (exported data/bss/ref/expr section head with 0-3 "
+                      "lref (address form, difference form, difference form whose base label is in unreachable code), func, proto) + directed two-module grid (exported data/bss/ref/expr section head with 0-3 "
                       "anonymous followers, export before/after the definition, importing module loaded before/after, refs "
                       "and address expr functions to the import) + random item "
                       "sequences of length 1..50 (a quarter of them with a second importing module); each run under asan(+asserts) and plain -DNDEBUG harness, engine "
